@@ -322,3 +322,13 @@ pub fn uf_assign_f<'a: 'a>(s: &mut TwoFloat, r: &'a f64) {
     let v = unsafe { T_ASSIGN_F.call(key, fresh) };
     *s = r2(v);
 }
+
+/// contract stub for `TwoFloat::ln`: ln(1) == 0 exactly (decided on the real code by C15's exact-point
+/// query: it is an early return), any value otherwise
+pub fn ln_contract(x: TwoFloat) -> TwoFloat {
+    if x.hi() == 1.0 && x.lo() == 0.0 {
+        tf(0.0, 0.0)
+    } else {
+        havoc_tf()
+    }
+}
